@@ -483,6 +483,29 @@ template<class T, class W = uint64_t> struct Driver {
       for (int k = 0; k < 5; k++) do_update(3, g.range(1, U), g.range(1, 20), false);
       do_merge(3, 1, path == 1); obs(3);
     }
+    U = 200;
+    midlife(0); midlife(1);
+  }
+  // DIRECTED mid-life checkpoints: a sketch that is still growing (lg_cur below lg_max, a few rows) is serialized and restored
+  // through each path, then original and restored take the same long stream of mostly new items in lock-step - past several
+  // resizes and the first purges at lg_max - with TwinObs after every step and full observations on both now and then.
+  void midlife(int path) {
+    int lg = (int)g.range(6, 7);
+    mk(0, lg, 3);
+    long nfirst = g.range(3, 11);                       // lg_cur 3 or 4 at the checkpoint
+    for (long x = 1; x <= nfirst; x++) do_update(0, x, g.range(1, 5), g.chance(30));
+    obs(0);
+    int b = (int)g.below(NB);
+    ser(0, b); deser(b, 1, path);
+    twin_a = 0; twin_b = 1; twin_left = 1000; twin_obs(); obs(1);
+    long cap = (3L << lg) / 4, next = nfirst + 1;
+    for (long k = 0; k < cap + cap / 2; k++) {
+      long x = g.chance(80) ? next++ : g.range(1, next); long w = g.chance(70) ? 1 : g.range(1, 9); bool rv = g.chance(30);
+      do_update(0, x, w, rv); do_update(1, x, w, rv); twin_obs();
+      if (k % 40 == 39) { obs(0); obs(1); }
+    }
+    obs(0); obs(1); ser(1, (b + 1) % NB);
+    twin_left = 0; twin_a = twin_b = -1;
   }
   void slot_segment(long seg) {
     Ev("Begin").i("seg", seg).str("type", Codec<T>::name()).str("wt", wname()).b("slots", true).emit();
